@@ -30,7 +30,7 @@ BUDGET = {"quick": 900, "thorough": 4 * 3600}
 DEPTH = {"quick": 2, "thorough": 3}
 HOPS = ["seed0", "seed12345", "draw", "fit_km_random", "fit_gmm", "fit_isv", "fit_jfa", "fit_ivector", "fit_km_parallel"]
 TARGETS = ["km_random", "km_random_dask", "gmm_km", "gmm_km_dask", "isv_list", "isv_bag", "isv_array_dask", "jfa_list", "wccn", "km_parallel",
-           "isv_list_seed0", "jfa_list_seed0", "km_random_refit", "gmm_shared_km_trainer"]
+           "isv_list_seed0", "jfa_list_seed0", "km_random_refit", "gmm_shared_km_trainer", "gmm_default_init"]
 
 X8 = [[0, 0], [1, 0.5], [0.5, 1.5], [10, 10], [11, 11.5], [10.5, 9.5], [2, 1], [9, 12]]
 Y8 = [0, 1, 0, 1, 0, 1, 1, 0]
@@ -43,7 +43,7 @@ def cases(tier, seed):
         hists += [list(h) for h in itertools.product(HOPS[:8], repeat=d)]
     for t in TARGETS:
         for h in hists:
-            if t == "km_parallel" and len(h) > 1:
+            if t in ("km_parallel", "gmm_default_init") and len(h) > 1:
                 continue  # 0.3 s per initialisation: depth 1 only
             if tier == "quick" and len(h) == 2 and t in ("km_random_dask", "gmm_km_dask", "isv_bag", "isv_array_dask") and (HOPS.index(h[0]) + HOPS.index(h[1])) % 3:
                 continue
@@ -90,6 +90,9 @@ def _fit_target(t, X, ubm, stats):
         return _vec(KMeansMachine(2, init_method="random", random_state=3, max_iter=3).fit(A), ["centroids_"])
     if t == "km_parallel":
         return _vec(KMeansMachine(2, init_method="k-means||", random_state=1, max_iter=1).fit(X.copy()), ["centroids_"])
+    if t == "gmm_default_init":  # the default initialiser (k-means|| seeded with random_state)
+        g = GMMMachine(2, random_state=6, max_fitting_steps=1, update_means=True, update_variances=True, update_weights=True, convergence_threshold=None).fit(X.copy())
+        return _vec(g, ["means", "variances", "weights"])
     if t in ("gmm_km", "gmm_km_dask"):
         A = X.copy() if t == "gmm_km" else da.from_array(X.copy(), chunks=(5, 2))
         g = GMMMachine(2, k_means_trainer=KMeansMachine(2, init_method="random", random_state=5, max_iter=2), random_state=5, max_fitting_steps=2,
